@@ -2,6 +2,7 @@ package main
 
 import (
 	"fmt"
+	"go/token"
 	"go/types"
 	"sort"
 	"strings"
@@ -205,6 +206,307 @@ func init() {
 		wrapProp(prop, func(c *Ctx, p *Program) {
 			c.Clauses = append(c.Clauses, prop+".shallowcopy: no constructor copies only the references of a caller's slice of interface or pointer elements into the object it builds")
 			checkShallowCopy(c, p, prop+".shallowcopy", pres)
+		})
+	}
+}
+
+// IDXCHECK: the result of a search (strings.Index*, bytes.Index*) is compared with a constant before it is
+// used as an offset.
+//
+// These functions return -1 when nothing is found. `cur += strings.IndexFunc(s[cur:], pred)` moves the cursor
+// backwards in that case: a scanner loops forever or slices out of range on inputs that end inside the run it
+// skips. Reported when a search result flows into an addition, a subtraction, a slice bound or an index and
+// the function contains no comparison of that result.
+func checkIndexResult(c *Ctx, p *Program, rule string, prefixes []string) {
+	var fs []*ssa.Function
+	for f := range p.AllFuncs {
+		if f.Blocks != nil && isCirclFunc(f) && sourceFunc(f) && !strings.Contains(funcPkgPath(f), "/internal/test") && (prefixes == nil || inScope(f, prefixes)) {
+			fs = append(fs, f)
+		}
+	}
+	sort.Slice(fs, func(i, j int) bool { return fs[i].String() < fs[j].String() })
+	n, nbad := 0, 0
+	for _, f := range fs {
+		for _, b := range f.Blocks {
+			for _, in := range b.Instrs {
+				cl, ok := in.(*ssa.Call)
+				if !ok {
+					continue
+				}
+				name := p.staticCalleeName(&cl.Call)
+				if !(strings.HasPrefix(name, "strings.Index") || strings.HasPrefix(name, "bytes.Index") || strings.HasPrefix(name, "strings.LastIndex") || strings.HasPrefix(name, "bytes.LastIndex")) {
+					continue
+				}
+				n++
+				compared, offset := false, ""
+				var walk func(v ssa.Value, depth int)
+				seen := map[ssa.Value]bool{}
+				walk = func(v ssa.Value, depth int) {
+					if seen[v] || depth > 4 {
+						return
+					}
+					seen[v] = true
+					for _, r := range *v.Referrers() {
+						switch x := r.(type) {
+						case *ssa.BinOp:
+							switch x.Op.String() {
+							case "<", "<=", ">", ">=", "==", "!=":
+								compared = true
+							case "+", "-":
+								if offset == "" {
+									offset = "arithmetic at " + p.pos(x.Pos())
+								}
+								walk(x, depth+1)
+							}
+						case *ssa.Slice:
+							if offset == "" {
+								offset = "slice bound at " + p.pos(x.Pos())
+							}
+						case *ssa.IndexAddr:
+							if x.Index == v && offset == "" {
+								offset = "index at " + p.pos(x.Pos())
+							}
+						case *ssa.Phi:
+							walk(x, depth+1)
+						case *ssa.Convert:
+							walk(x, depth+1)
+						case *ssa.Store:
+							if offset == "" && depth > 0 {
+								offset = "stored sum at " + p.pos(x.Pos())
+							}
+						}
+					}
+				}
+				walk(cl, 0)
+				if offset != "" && !compared {
+					nbad++
+					c.bad(rule, fname(f)+": a search result is tested before it is used as an offset", fmt.Sprintf("the result of %s at %s is used (%s) and never compared with a constant in this function: it is -1 when nothing is found", shortCallee(name), p.pos(cl.Pos()), offset), p.pos(cl.Pos()))
+				}
+			}
+		}
+	}
+	c.count("search_calls", n)
+	if nbad == 0 {
+		c.ok(rule, "every search result used as an offset is compared with a constant first", fmt.Sprintf("%d calls of strings/bytes Index functions inspected", n), "")
+	}
+}
+
+func init() {
+	wrapProp("C10", func(c *Ctx, p *Program) {
+		c.Clauses = append(c.Clauses, "C10.idxcheck: the result of a strings / bytes Index search is compared with a constant before it is used as an offset (it is -1 when nothing is found: a cursor moved by it loops or slices out of range)")
+		checkIndexResult(c, p, "C10.idxcheck", nil)
+	})
+}
+
+// recursiveCycles: strongly connected components of the static call graph among circl functions (size > 1, or
+// a function that calls itself).
+func recursiveCycles(p *Program) [][]*ssa.Function {
+	var fs []*ssa.Function
+	for f := range p.AllFuncs {
+		if f.Blocks != nil && isCirclFunc(f) && !strings.Contains(funcPkgPath(f), "/internal/test") {
+			fs = append(fs, f)
+		}
+	}
+	sort.Slice(fs, func(i, j int) bool { return fs[i].String() < fs[j].String() })
+	adj := map[*ssa.Function][]*ssa.Function{}
+	for _, f := range fs {
+		seen := map[*ssa.Function]bool{}
+		var visit func(g *ssa.Function)
+		visit = func(g *ssa.Function) {
+			for _, b := range g.Blocks {
+				for _, in := range b.Instrs {
+					if ci, ok := in.(ssa.CallInstruction); ok {
+						if cal := ci.Common().StaticCallee(); cal != nil && cal.Blocks != nil && isCirclFunc(cal) && !seen[cal] {
+							seen[cal] = true
+							adj[f] = append(adj[f], cal)
+						}
+					}
+				}
+			}
+			for _, an := range g.AnonFuncs {
+				visit(an)
+			}
+		}
+		visit(f)
+	}
+	// Tarjan
+	index, low := map[*ssa.Function]int{}, map[*ssa.Function]int{}
+	on := map[*ssa.Function]bool{}
+	var stack []*ssa.Function
+	var out [][]*ssa.Function
+	idx := 0
+	var strong func(v *ssa.Function)
+	strong = func(v *ssa.Function) {
+		idx++
+		index[v], low[v] = idx, idx
+		stack = append(stack, v)
+		on[v] = true
+		for _, w := range adj[v] {
+			if index[w] == 0 {
+				strong(w)
+				if low[w] < low[v] {
+					low[v] = low[w]
+				}
+			} else if on[w] && index[w] < low[v] {
+				low[v] = index[w]
+			}
+		}
+		if low[v] == index[v] {
+			var comp []*ssa.Function
+			for {
+				w := stack[len(stack)-1]
+				stack = stack[:len(stack)-1]
+				on[w] = false
+				comp = append(comp, w)
+				if w == v {
+					break
+				}
+			}
+			self := false
+			for _, w := range adj[v] {
+				if w == v {
+					self = true
+				}
+			}
+			if len(comp) > 1 || self {
+				sort.Slice(comp, func(i, j int) bool { return comp[i].String() < comp[j].String() })
+				out = append(out, comp)
+			}
+		}
+	}
+	for _, f := range fs {
+		if index[f] == 0 {
+			strong(f)
+		}
+	}
+	return out
+}
+
+// RECURSION: every recursive cycle of the library is bounded.
+//
+// Recursion driven by untrusted input with no bound exhausts the goroutine stack, and a stack overflow is a
+// fatal error that cannot be recovered. The library has three recursive cycles (strongly connected components
+// of the static call graph). Each must either pass, on every cycle, through a function that counts the depth
+// in a field and refuses above a constant, or be listed here with the reason its depth is bounded.
+var boundedRecursion = map[string]string{
+	"(*abe/cpabe/tkn20/internal/tkn.Policy).printWire": "descends the gates of a decoded formula: wellformed() makes it a tree over fewer than 2^16 wires, the depth is at most the number of gates",
+	"dh/csidh.cofactorMul":                             "halves a constant index range (the primes of the CSIDH-512 parameter set): depth log2(74)",
+}
+
+func checkRecursionBounded(c *Ctx, p *Program, rule string) {
+	comps := recursiveCycles(p)
+	for _, comp := range comps {
+		var names []string
+		in := map[*ssa.Function]bool{}
+		for _, f := range comp {
+			names = append(names, fname(f))
+			in[f] = true
+		}
+		what := "recursion through " + strings.Join(names, ", ") + " is bounded"
+		if len(comp) == 1 {
+			if why, ok := boundedRecursion[names[0]]; ok {
+				c.ok(rule, what, why, p.fnPos(comp[0]))
+				continue
+			}
+		}
+		// depth guards: a field incremented and compared with a constant in the same function
+		var guards []*ssa.Function
+		for _, f := range comp {
+			inc, cmp := map[string]bool{}, map[string]bool{}
+			for _, b := range f.Blocks {
+				for _, ins := range b.Instrs {
+					switch x := ins.(type) {
+					case *ssa.Store:
+						fa, ok := x.Addr.(*ssa.FieldAddr)
+						if !ok {
+							continue
+						}
+						if bo, ok := x.Val.(*ssa.BinOp); ok && bo.Op == token.ADD {
+							if k, ok := bo.Y.(*ssa.Const); ok && k.Value != nil && k.Value.ExactString() == "1" {
+								inc[fieldName(fa)] = true
+							}
+						}
+					case *ssa.BinOp:
+						switch x.Op {
+						case token.GTR, token.GEQ, token.LSS, token.LEQ:
+						default:
+							continue
+						}
+						for i, side := range []ssa.Value{x.X, x.Y} {
+							ld, ok := side.(*ssa.UnOp)
+							if !ok || ld.Op != token.MUL {
+								continue
+							}
+							fa, ok := ld.X.(*ssa.FieldAddr)
+							if !ok {
+								continue
+							}
+							if _, isK := []ssa.Value{x.Y, x.X}[i].(*ssa.Const); isK {
+								cmp[fieldName(fa)] = true
+							}
+						}
+					}
+				}
+			}
+			for n := range inc {
+				if cmp[n] {
+					guards = append(guards, f)
+					break
+				}
+			}
+		}
+		bounded := false
+		for _, g := range guards {
+			// without g the component must be acyclic
+			color := map[*ssa.Function]int{}
+			cyc := false
+			var dfs func(v *ssa.Function)
+			dfs = func(v *ssa.Function) {
+				color[v] = 1
+				for _, b := range v.Blocks {
+					for _, ins := range b.Instrs {
+						if ci, ok := ins.(ssa.CallInstruction); ok {
+							w := ci.Common().StaticCallee()
+							if w == nil || !in[w] || w == g {
+								continue
+							}
+							if color[w] == 1 {
+								cyc = true
+							} else if color[w] == 0 {
+								dfs(w)
+							}
+						}
+					}
+				}
+				color[v] = 2
+			}
+			for _, f := range comp {
+				if f != g && color[f] == 0 {
+					dfs(f)
+				}
+			}
+			if !cyc {
+				bounded = true
+				c.ok(rule, what, "every cycle passes through "+fname(g)+", which counts the depth in a field and compares it with a constant", p.fnPos(g))
+				break
+			}
+		}
+		if !bounded {
+			c.bad(rule, what, "no function on every cycle counts the depth and refuses above a constant, and the cycle is not among the ones shown to be bounded: input that nests deeply enough exhausts the stack, which kills the process", p.fnPos(comp[0]))
+		}
+	}
+	c.count("recursive_cycles", len(comps))
+	if len(comps) < 3 {
+		c.undecided(rule, "recursive cycles of the library", fmt.Sprintf("only %d found (3 confirmed by hand)", len(comps)), "")
+	}
+}
+
+func init() {
+	for _, prop := range []string{"C10", "C20"} {
+		prop := prop
+		wrapProp(prop, func(c *Ctx, p *Program) {
+			c.Clauses = append(c.Clauses, prop+".recursion: every recursive cycle of the library passes through a depth counter compared with a constant, or is one of the two shown to be bounded by the size of already validated data")
+			checkRecursionBounded(c, p, prop+".recursion")
 		})
 	}
 }
